@@ -406,7 +406,7 @@ func loadPropCfg(path string) (*PropCfg, error) {
 }
 
 func tierMatch(h *HarnessCfg, tier string) bool {
-	if len(h.Tiers) == 0 {
+	if len(h.Tiers) == 0 || debugEngine {
 		return true
 	}
 	for _, t := range h.Tiers {
